@@ -290,12 +290,14 @@ class RefBroker:
         if tag in c['consumers']:
             self.violations.append('duplicate consumer tag %r on channel %d' % (tag, ch))
         c['consumers'][tag] = fr.queue
+        self.net.sched.ev('broker_consume', (ch, tag))
         self.send(ch, spec.Basic.ConsumeOk(consumer_tag=tag))
         self.pump(fr.queue)
 
     def h_Basic_Cancel(self, ch, c, fr):
         c['consumers'].pop(fr.consumer_tag, None)
         c.setdefault('cancels', []).append(fr.consumer_tag)
+        self.net.sched.ev('broker_cancel', (ch, fr.consumer_tag, 'client'))
         self.send(ch, spec.Basic.CancelOk(consumer_tag=fr.consumer_tag))
 
     def h_Basic_Ack(self, ch, c, fr):
@@ -392,18 +394,17 @@ class RefBroker:
         """deliver queued messages to the first consumer of `queue`"""
         q = self.queues[queue]
         while q:
-            target = None
-            for ch, c in self.channels.items():
+            cands = []
+            for ch, c in sorted(self.channels.items()):
                 if c['state'] != 'open':
                     continue
                 for tag, qq in c['consumers'].items():
                     if qq == queue:
-                        target = (ch, c, tag)
-                        break
-                if target:
-                    break
-            if not target:
+                        cands.append((ch, c, tag))
+            if not cands:
                 return
+            self.rr = getattr(self, 'rr', 0) + 1          # round-robin over the queue's consumers
+            target = cands[self.rr % len(cands)]
             ch, c, tag = target
             props, body, ex, rk = q.popleft()
             c['delivery_tag'] += 1
@@ -425,9 +426,12 @@ class RefBroker:
 
     def cancel_consumer(self, ch, tag):
         c = self.channels.get(ch)
-        if c is not None:
-            c['consumers'].pop(tag, None)
+        if c is None or tag not in c['consumers']:
+            return False
+        c['consumers'].pop(tag, None)
+        self.net.sched.ev('broker_cancel', (ch, tag, 'broker'))
         self.send(ch, spec.Basic.Cancel(consumer_tag=tag), reply=False)
+        return True
 
     def enqueue(self, queue, body, props=None):
         self.queues[queue].append((spec.Basic.Properties(**(props or {})), body, '', queue))
